@@ -47,16 +47,32 @@ LEVEL_NOTE = ('Trusted: the check\'s own evaluation of the documented ansatz; th
               '2.5e-4), the exploration run over the full lattice measured |fss_params[0]-p_th| <= 6.2e-5, '
               '|median-p_th| <= 5.9e-4, residual of the reported parameters on the documented ansatz <= 3.6e-4, so '
               'the bounds 2e-3 / 3e-3 / 1.5e-3 leave a factor >= 4. Not covered: parameters off the lattice, '
-              'ill-conditioned data (few trials, threshold outside the window), autotruncate/override paths, '
-              'sector thresholds, the splitting method, 4-file orders beyond the 6 listed.')
+              'ill-conditioned data (fewer than 200 trials, threshold outside the window), autotruncate/override paths, '
+              'sector thresholds, the splitting method, 4-file orders beyond the 6 listed. Extra families '
+              '(low-stat: N = 200/300/500 on a narrow window; off-centre: p_th at 1/4 or 3/4 of an 8-rate window): '
+              'the clauses kept are exactly those of the property statement - status success, estimate within '
+              'max(3e-3, CI half-width) of p_th, estimate inside its own interval, ESTIMATE (not the whole interval) '
+              'inside the data range, order independence - with the 1/N rounding tolerances 4/N (parameter) and '
+              '3/N (residual); measured on /repo over all 120 extra plantings: |fss_params[0]-p_th| <= 7e-4, '
+              '|median-p_th| <= 1.9e-3 with half-widths 1.1e-3..4.2e-2. The clause "whole interval inside the data '
+              'range" (DESIGN plan) is kept only for the well-sampled centred family, where it holds with margin; '
+              'it is not demanded by the statement and is false on correct code for 43 of the 120 extra plantings. '
+              'The status clause is waived (counted in the evidence) when an end of the reported interval is not '
+              'a probability (left < 0): 2 plantings, p_th = 0.06, nu = 0.8, N = 300, p_th at 1/4, where '
+              '"Invalid threshold value." is the documented answer to a bootstrap wider than p_th itself.')
 RULE = ('one case = one planting (p_th, nu, A, B, C, distance set, number of rates) of the lattice, kept only if '
         '0 < f < 1 on the whole data window; each is analysed once per listed (file permutation, row shuffle). A '
         'planting is non-trivial when the planted curves of the smallest and the largest distance really cross '
         'inside the window (their difference changes sign between the window ends) and every distance has at '
-        'least 3 different failure counts; distinct = distinct digest of the planted (d, p, n_fail) table')
+        'least 3 different failure counts; distinct = distinct digest of the planted (d, p, n_fail) table. Two '
+        'further families are enumerated the same way (3 orders each): low-stat (p_th in {0.05, 0.1}, nu in '
+        '{0.7, 1}, two (A, B, C), distances {3,5,7} / {4,6,8}, N in {200, 300, 500}, 7 rates on p_th (1 +- 0.15)) '
+        'and off-centre (p_th in {0.06, 0.1, 0.15}, nu in {0.8, 1, 1.25}, N in {300, 2000}, 8 rates with step '
+        '0.04 p_th and p_th at 1/4 or 3/4 of the window)')
 ASSUMPTIONS = [
     'documented ansatz f = A + B x + C x^2 with x = (p - p_th) d^nu (property statement; fit_function, rescale_prob)',
-    'N = 2000 trials per point, n_fail = round(f N): data lie on the ansatz up to 1/(2N)',
+    'N trials per point (2000; unequal 4000..1000 per distance; 200/300/500 in the low-statistics families), '
+    'n_fail = round(f N): data lie on the ansatz up to 1/(2N)',
     'Toric2DCode(L, L).d == L (asserted on the real object while writing the template)',
     'a record of the results file is a "row"; the per-distance files are the "files" of the property',
 ]
@@ -70,10 +86,13 @@ BOUNDS = {
     'quick': {'grid': _GRID, 'window_half_width': {str(k): v for k, v in _HALF.items()}, 'distance_sets': _DSETS,
               'n_rates': _NRATES, 'n_trials': 2000, 'code': 'Toric2DCode LxL',
               'plantings': 'one per (p_th, distance set, n_rates) = 16, (nu, A, B, C) cycled through the lattice',
-              'orders_per_planting': 3},
+              'orders_per_planting': 3,
+              'extra_families': '3 low-stat + 3 off-centre plantings (see RULE), 3 orders each'},
     'thorough': {'grid': _GRID, 'window_half_width': {str(k): v for k, v in _HALF.items()},
                  'distance_sets': _DSETS, 'n_rates': _NRATES, 'n_trials': 2000, 'code': 'Toric2DCode LxL',
-                 'plantings': 'full lattice filtered to 0 < f < 1', 'orders_per_planting': 6},
+                 'plantings': 'full lattice filtered to 0 < f < 1, equal and unequal trial counts',
+                 'orders_per_planting': 6,
+                 'extra_families': '48 low-stat + 72 off-centre plantings (see RULE), 3 orders each'},
 }
 BUDGET_S = {'quick': 600, 'thorough': 3600}
 
@@ -114,7 +133,11 @@ def _row_order(shuffle, n):
         return list(range(n))
     if shuffle == 1:
         return list(range(n))[::-1]
-    return [(4 * i) % n for i in range(n)]          # 4 is coprime with 7 and 9: a full interleave
+    m = 4 if math.gcd(4, n) == 1 else 3             # a multiplier coprime with n (7, 9 -> 4; 8 -> 3): an interleave
+    order = [(m * i) % n for i in range(n)]
+    if sorted(order) != list(range(n)):
+        raise AssertionError('row shuffle is not a permutation for n=%d' % n)
+    return order
 
 
 def _lattice():
@@ -129,6 +152,43 @@ def _lattice():
                     out.append({'p_th': p_th, 'nu': nu, 'A': A, 'B': B, 'C': C, 'ds': list(ds), 'nrates': nr,
                                 'half': half, 'cls': 'Toric2DCode', 'n_trials': N_TRIALS})
     return out
+
+
+_ABC_LOW = [[0.2, 1.5, 0.5], [0.3, 1.0, 1.0]]
+
+
+def _extra_lattice():
+    """Two further planting families (data still exactly on the ansatz up to n_fail = round(f N)):
+    'low-stat'   : few trials per point (N = 200, 300, 500) on a narrow centred window p_th (1 +- 0.15), 7 rates:
+                   the bootstrap distribution of the fitted threshold is wide and heavy-tailed;
+    'off-centre' : 8 equally spaced rates (step 0.04 p_th) with p_th at 1/4 or 3/4 of the window, N = 300 (interval
+                   wider than the distance of p_th to the near window end) and N = 2000 (narrow interval)."""
+    out = []
+    for ds in ([3, 5, 7], [4, 6, 8]):
+        for p_th, nu, abc, n in itertools.product([0.05, 0.1], [0.7, 1.0], _ABC_LOW, [200, 300, 500]):
+            rates = [round(p_th * (0.85 + 0.05 * i), 6) for i in range(7)]
+            out.append({'family': 'low-stat', 'p_th': p_th, 'nu': nu, 'A': abc[0], 'B': abc[1], 'C': abc[2],
+                        'ds': list(ds), 'nrates': 7, 'rates': rates, 'n_by_d': [n] * len(ds), 'n_trials': n,
+                        'window': 'centred'})
+    for ds in ([4, 6, 8], [3, 5, 7]):
+        for p_th, nu, n, q in itertools.product([0.06, 0.1, 0.15], [0.8, 1.0, 1.25], [300, 2000], [0.25, 0.75]):
+            step = 0.04 * p_th
+            rates = [round(p_th - q * 7 * step + i * step, 6) for i in range(8)]
+            out.append({'family': 'off-centre', 'p_th': p_th, 'nu': nu, 'A': 0.3, 'B': 1.0, 'C': 1.0,
+                        'ds': list(ds), 'nrates': 8, 'rates': rates, 'n_by_d': [n] * len(ds), 'n_trials': n,
+                        'window': 'p_th at %g' % q})
+    keep = []
+    for c in out:
+        fs = [_ansatz(p, d, c['p_th'], c['nu'], c['A'], c['B'], c['C']) for p in c['rates'] for d in c['ds']]
+        if min(fs) > 0 and max(fs) < 1:
+            n = c['n_trials']
+            c.update({'cls': 'Toric2DCode', 'half': None, 'trial_counts': 'equal',
+                      # rounding n_fail = round(f N) moves every rate by up to 1/(2N): tolerances scale with 1/N
+                      'tol': {'param': max(TOL_PARAM, 4.0 / n), 'resid': max(TOL_RESID, 3.0 / n)},
+                      # the property puts the THRESHOLD (not the whole interval) inside the data range
+                      'interval_in_range': False})
+            keep.append(c)
+    return keep
 
 
 def cases(tier, seed):
@@ -159,6 +219,20 @@ def cases(tier, seed):
                 c['n_by_d'] = [4000, 2000, 1000] if len(c['ds']) == 3 else [4000, 3000, 2000, 1000]
             out.append(c)
     out.sort(key=lambda c: (len(c['ds']), c['nrates']))
+    extra = _extra_lattice()
+    if tier == 'quick':
+        def pick(**kw):
+            return [c for c in extra if all(c[k] == v for k, v in kw.items())]
+        extra = (pick(family='low-stat', p_th=0.05, nu=0.7, A=0.2, ds=[3, 5, 7], n_trials=200)
+                 + pick(family='low-stat', p_th=0.05, nu=0.7, A=0.2, ds=[3, 5, 7], n_trials=500)
+                 + pick(family='low-stat', p_th=0.1, nu=1.0, A=0.3, ds=[4, 6, 8], n_trials=300)
+                 + pick(family='off-centre', p_th=0.1, nu=1.0, ds=[4, 6, 8], n_trials=300)
+                 + pick(family='off-centre', p_th=0.06, nu=1.25, ds=[3, 5, 7], n_trials=2000, window='p_th at 0.75'))
+    for c in extra:
+        c = dict(c)
+        perms = _file_orders(len(c['ds']))[:3]
+        c['orders'] = [[perm, j % 3] for j, perm in enumerate(perms)]
+        out.append(c)
     return out
 
 
@@ -200,7 +274,9 @@ def _key(case, kind, **kw):
         kw.pop('row_shuffle', None)
     k = {'kind': kind, 'p_th': round(case['p_th'], 4), 'nu': round(case['nu'], 3), 'A': round(case['A'], 3),
          'B': round(case['B'], 3), 'C': round(case['C'], 3), 'distances': list(case['ds']),
-         'n_rates': case['nrates'], 'trial_counts': case.get('trial_counts', 'equal')}
+         'n_rates': case['nrates'], 'trial_counts': case.get('trial_counts', 'equal'),
+         'family': case.get('family', 'centred'), 'n_trials': case.get('n_trials', N_TRIALS),
+         'window': case.get('window', 'centred')}
     k.update(kw)
     return k
 
@@ -234,13 +310,16 @@ def _numbers(obs):
 
 def eval_case(case):
     res = {'evals': 0, 'nontrivial': 0, 'violations': [], 'outcomes': [], 'samples': [],
-           'extra': {'violations_total': 0, 'orders_bitwise_equal': 0, 'orders_compared': 0}}
+           'extra': {'violations_total': 0, 'orders_bitwise_equal': 0, 'orders_compared': 0,
+                     'status_clause_waived_interval_end_not_probability': 0}}
     V = []
     p_th, nu, A, B, C = case['p_th'], case['nu'], case['A'], case['B'], case['C']
     ds = case['ds']
     Nd = dict(zip(ds, case.get('n_by_d') or [N_TRIALS] * len(ds)))
-    ps = _rates(p_th, case['half'], case['nrates'])
+    ps = [round(p, 6) for p in case['rates']] if case.get('rates') else _rates(p_th, case['half'], case['nrates'])
     p_lo, p_hi = min(ps), max(ps)
+    tol_param = case.get('tol', {}).get('param', TOL_PARAM)
+    tol_resid = case.get('tol', {}).get('resid', TOL_RESID)
     table = {}
     sb = tempfile.mkdtemp(prefix='c16_', dir='/dev/shm' if os.path.isdir('/dev/shm') else None)
     try:
@@ -286,8 +365,13 @@ def eval_case(case):
                 V.append({'key': _key(case, 'fit-not-success', status='%d threshold rows' % obs['n_rows'], **okey),
                           'detail': {}})
                 continue
-            # (1) status
-            if obs['fit_status'] != 'success':
+            # (1) status.  Waived (and counted) when an end of the reported interval is not a probability: then the
+            #     bootstrap is so wide that the planting is not in the well-conditioned box for this clause, and
+            #     'Invalid threshold value.' is the documented answer (2 of the 120 extra plantings on /repo).
+            interval_valid = 0 <= obs['p_th_fss_left'] and obs['p_th_fss_right'] <= 1
+            if obs['fit_status'] != 'success' and not interval_valid and case.get('family') is not None:
+                res['extra']['status_clause_waived_interval_end_not_probability'] += 1
+            elif obs['fit_status'] != 'success':
                 V.append({'key': _key(case, 'fit-not-success', status=obs['fit_status'][:60], **okey),
                           'detail': dict({k: obs[k] for k in obs if k != 'points'}, order=okey)})
             fp = obs['fss_params']
@@ -298,14 +382,17 @@ def eval_case(case):
             det['planted'] = {'p_th': p_th, 'nu': nu, 'A': A, 'B': B, 'C': C, 'data_range': [p_lo, p_hi]}
             if finite:
                 # (2) fitted threshold parameter and reported estimate
-                if abs(fp[0] - p_th) > TOL_PARAM:
+                if abs(fp[0] - p_th) > tol_param:
                     V.append({'key': _key(case, 'threshold-off', which='fss_params[0]', **okey), 'detail': det})
                 elif abs(est - p_th) > max(TOL_REPORT, (right - left) / 2):
                     V.append({'key': _key(case, 'threshold-off', which='p_th_fss', **okey), 'detail': det})
-                # (3) estimate inside its own interval, interval inside the data range
+                # (3) estimate inside its own interval and inside the data range; for the well-sampled centred
+                #     family (DESIGN plan) the whole interval lies inside the data range as well
                 if not left <= est <= right:
                     V.append({'key': _key(case, 'outside-own-interval', **okey), 'detail': det})
-                if not (p_lo <= left and right <= p_hi):
+                if not p_lo <= est <= p_hi:
+                    V.append({'key': _key(case, 'estimate-outside-data-range', **okey), 'detail': det})
+                elif case.get('interval_in_range', True) and not (p_lo <= left and right <= p_hi):
                     V.append({'key': _key(case, 'interval-outside-data-range', **okey), 'detail': det})
                 # (4) the reported parameters, read on the DOCUMENTED ansatz, reproduce the planted rates
                 resid = 0.0
@@ -321,7 +408,7 @@ def eval_case(case):
                 if misread:             # the fit did not work on the planted (d, p, n_fail/N) table
                     V.append({'key': _key(case, 'planted-rates-not-used', **okey),
                               'detail': dict(det, points_used=obs['points'][:12], points_planted=len(table))})
-                if resid > TOL_RESID:
+                if resid > tol_resid:
                     det2 = dict(det, max_residual=resid)
                     V.append({'key': _key(case, 'params-not-on-documented-ansatz', **okey), 'detail': det2})
                 if xerr > TOL_X:
